@@ -8,6 +8,10 @@ CHECKS = {
    technique="Kani/CBMC bounded model checking of the compiled trie lookups with the code point fully symbolic (SAT verdict over all 1,112,064 scalar values)",
    text="For c: char = kani::any() (every Unicode scalar value, no sampling) CBMC proves: exactly one of the 30 two-letter general-category functions is true; each of the 8 grouped categories equals the disjunction of its members; at most one script function is true. The claim is exhaustive in the code point; there is no loop bound involved beyond the harness' own counters.",
    note="Trusted: Kani's MIR->goto translation, CBMC, cadical. No stubs. by_name(), the VM/generated access paths and the validator's name list are not decided by the quick tier (see DESIGN.md §5 C16)."),
+ "C10": dict(level="model_checking", design="§5 C10", engine="K",
+   technique="Kani/CBMC bounded model checking of Position/Span code over every valid UTF-8 string up to N bytes and every offset (SAT verdict), counterexamples replayed natively by concrete playback",
+   text="For every valid UTF-8 string of at most N bytes (N=4 quick, 6 thorough; validity decided by the real core::str::from_utf8 inside the harness, so multi-byte, CR, LF, CRLF, tabs all included) and every usize offset / offset pair / RangeBounds form, CBMC proves Position::new, line_col, line_of, Span::new, Span::get, merge_spans (and lines_span in the thorough tier) equal short reference definitions and never panic. Unwinding assertions are on, so the loop bounds are checked, not assumed.",
+   note="Trusted: Kani translation, CBMC. Outside the claim: strings longer than N bytes; LineIndex / Pair::line_col / Error line-col and rendered text (planned on engine M). 'Overlap' for lines_span is read as closed interval, see DESIGN.md §5 C10."),
 }
 
 NOT_APPLICABLE = {
